@@ -407,5 +407,46 @@ def rule_r5(ctx) -> RuleResult:
     return rr
 
 
+def rule_r6(ctx) -> RuleResult:
+    """Protection allocates a cookie in the page's table; a memoised function on that path would hand
+    out cookie characters of an earlier page (shared with C09.R10)."""
+    from ..core.callgraph import CallGraph
+    from . import c09
+
+    r = c09.rule_r10(ctx, CallGraph(ctx.index))
+    rr = RuleResult("C15.R6", "no memoised function allocates cookies (shared with C09.R10)", min_instances=1)
+    for f in r.findings:
+        rr.bad(Finding("C15.R6", f.file, f.function, f.construct,
+                       f.message + "; protected <nowiki> text is replaced by another cookie's content or leaks as a private-use character", f.line))
+    rr.cases = set(r.cases)
+    rr.obligations = r.obligations
+    rr.discharged = r.discharged
+    rr.samples = list(r.samples)
+    return rr
+
+
+def rule_r7(ctx) -> RuleResult:
+    """`_finalize_expand` turns cookie characters back into text (N cookies into entity-quoted
+    text).  It is a *final* consumer: called on the finished result of expand() and by the parser's
+    string merge, never from inside the recursive expansion (where the text it produces would be
+    substituted into template bodies and re-interpreted, trimmed or case-mapped)."""
+    rr = RuleResult("C15.R7", "cookies are decoded only by the final consumers, never inside the recursive expansion", min_instances=2)
+    allowed = {"core.Wtp.expand", "parser._parser_merge_str_children", "core.Wtp._finalize_expand", "core.Wtp._finalize_expand.magic_repl"}
+    n_sites = 0
+    for dotted, m, f in ctx.index.all_functions():
+        for c in walk_no_nested(f):
+            if isinstance(c, ast.Call) and isinstance(c.func, ast.Attribute) and c.func.attr == "_finalize_expand":
+                n_sites += 1
+                if dotted in allowed:
+                    rr.ok(dotted, unparse(c)[:60], {"fn": dotted})
+                else:
+                    rr.bad(Finding("C15.R7", m.relpath, dotted, unparse(c)[:80],
+                                   "cookies are decoded in the middle of the expansion: <nowiki> content in this value stops being an opaque cookie "
+                                   "and is trimmed / re-interpreted by whatever the text is substituted into", c.lineno))
+    if n_sites == 0:
+        raise AnalysisError("no call of _finalize_expand found")
+    return rr
+
+
 def run(ctx) -> list:
-    return [rule_r1(ctx), rule_r2(ctx), rule_r3(ctx), rule_r4(ctx), rule_r5(ctx)]
+    return [rule_r1(ctx), rule_r2(ctx), rule_r3(ctx), rule_r4(ctx), rule_r5(ctx), rule_r6(ctx), rule_r7(ctx)]
